@@ -72,6 +72,15 @@ def main():
         sh(["git", "-C", REPO, "checkout", "--", "."])
         if not clean():
             print("WARNING: /repo not clean after undo:", sh(["git", "-C", REPO, "status", "--porcelain"]).stdout)
+        # leave no binary of the changed tree behind (the checks rebuild anyway; developer tools
+        # that use the cached binaries directly do not)
+        sys.path.insert(0, V)
+        try:
+            from vlib import common as _C
+            _C.build_idlc("debug")
+            _C.build_probe()
+        except Exception as e:  # noqa
+            print("WARNING: rebuild after undo failed:", e)
     res["detected_by"] = sorted(k for k, v in res["checks"].items() if v["rc"] == 1 and v["violation_lines"])
     json.dump(res, open(os.path.join(d, "result.json"), "w"), indent=1, sort_keys=True)
     print("detected by:", res["detected_by"])
